@@ -81,6 +81,10 @@ EXTRA = {
     "C17": "The pool contains a 9-pose trajectory with one pose near the origin and the others kilometres away, ids of 2e5 / 5e6 / 2^40 differing by 1, array vs pose estimates with equal numbers.",
     "C18": "The product is repeated with all endpoints fixed, ids as tuple / numpy integers, all-zero / all-ones information; plus every vertex-list order of 3..5-vertex graphs, two edges naming the same vertices, every line order of a 5-line .g2o file with and without an unknown id.",
 }
+EXTRA6 = "After the sixth wave every case also carries the process history it needs (an earlier identity-offset edge, earlier junk lines, an earlier rejected graph), and standard-library copies (copy / deepcopy / pickle) of poses, edges and graphs are used like the originals where the property is about them."
+for _k in ("C01", "C06", "C10", "C14", "C18"):
+    EXTRA[_k] = EXTRA[_k] + " " + EXTRA6
+EXTRA["C12"] = "Scripted chi2 sequences far outside the model's value alphabet (growth by 1e7 per iteration, collapse, 1e12 plateaus) are replayed against the documented rule for tol x max_iter x verbose; graphs with an edge subclass overriding calc_chi2 are included."
 for _t in T:
     if _t["id"] in EXTRA:
         _t["text"] = _t["text"] + " " + EXTRA[_t["id"]]
